@@ -64,7 +64,7 @@ def check(ctx: Ctx) -> None:
             if isinstance(n, ast.AugAssign) and unparse(n.target) == "self.count" and n is not incs[0]:
                 ob.violation(fn, n, "a second update of the id counter")
         # count is written nowhere else
-        for f in repo.funcs.values():
+        for f in repo.scan_funcs():
             for n in repo.own_nodes(f):
                 if isinstance(n, (ast.Assign, ast.AugAssign)) and f.short not in ("ChannelFactory.__init__", "ChannelFactory.new"):
                     for t in (n.targets if isinstance(n, ast.Assign) else [n.target]):
